@@ -2,6 +2,7 @@ package main
 
 import (
 	"bufio"
+	"context"
 	"bytes"
 	"encoding/json"
 	"errors"
@@ -69,6 +70,13 @@ type c18Scenario struct {
 	// ReqCT: Content-Type of the request ("" = none); only urlencoded bodies are
 	// parsed into REQUEST_BODY, the body limit applies to every one of them
 	ReqCT string `json:"request_content_type"`
+	// CtxCancelled: the request's context is already cancelled when it arrives
+	// (a client that half-closed after sending; net/http still delivers the
+	// response to it)
+	CtxCancelled bool `json:"context_cancelled,omitempty"`
+	// RespCtl: response body access is Off in the configuration and a phase-3
+	// rule switches it on for the transaction
+	RespCtl bool `json:"resp_access_by_ctl,omitempty"`
 }
 
 const c18Tok = "EVILTOK"
@@ -103,6 +111,9 @@ func (sc *c18Scenario) text() string {
 		sc.ReqLimit, sc.ReqMem, act(sc.ReqReject), sc.RespLimit, act(sc.RespReject))
 	sb.WriteString("SecAuditEngine On\nSecAuditLogType verifrec\nSecAuditLog /simfs/a.log\nSecAuditLogParts ABZ\nSecAuditLogFormat JSON\n")
 	sb.WriteString(ctlLine)
+	if sc.RespCtl {
+		sb.WriteString("SecAction \"id:8,phase:3,pass,nolog,ctl:responseBodyAccess=On\"\n")
+	}
 	st := ""
 	if sc.DenyStatus != 0 {
 		st = fmt.Sprintf(",status:%d", sc.DenyStatus)
@@ -225,6 +236,10 @@ func c18Gen(t *verifrt.Tape) *c18Scenario {
 		sc.PredBody = 1 + t.Draw(sc.ReqLimit+4)
 	}
 	sc.Shape = t.Draw(4)
+	sc.CtxCancelled = t.Draw(8) == 0
+	if !sc.RespAccess && t.Draw(3) == 0 {
+		sc.RespCtl = true
+	}
 	sc.ReqCT = pick(t, []string{"application/x-www-form-urlencoded", "application/x-www-form-urlencoded", "application/x-www-form-urlencoded", "text/plain", "application/octet-stream", ""})
 	return sc
 }
@@ -483,6 +498,11 @@ func (sc *c18Scenario) request() *http.Request {
 		req.Header.Set("Content-Type", sc.ReqCT)
 	}
 	req.Header.Set("User-Agent", "sim")
+	if sc.CtxCancelled {
+		ctx, cancel := context.WithCancel(context.Background())
+		cancel()
+		req = req.WithContext(ctx)
+	}
 	if len(sc.Body) == 0 && sc.KnownLen {
 		req.Body = http.NoBody
 		return req
@@ -677,7 +697,7 @@ func c18Run(w *verifrt.World, tier Tier) *RunResult {
 	}
 	informationalFirst := firstStatus >= 100 && firstStatus <= 199
 	if mode == "On" && block == 0 {
-		processable := sc.RespAccess && strings.TrimSpace(strings.SplitN(ctype, ";", 2)[0]) == "text/plain"
+		processable := (sc.RespAccess || sc.RespCtl) && strings.TrimSpace(strings.SplitN(ctype, ";", 2)[0]) == "text/plain"
 		rb := respBody.String()
 		switch {
 		case sc.DenyPhase == 3 && headerPhaseRuns && tokHeader:
